@@ -308,7 +308,7 @@ def run(ck):
     ck.log((out.strip() or err.strip())[-300:])
     translator_ok = rc == 0
     proof_ok, failing = ck.proof_stage('MpVerif.C13.Props', 'MpVerif/C13/Props.lean', 'C13_',
-                                        ['MpVerif/C13/*.lean', 'MpVerif/Gen/C13Gen.lean'], expect_min=10)
+                                        ['MpVerif/C13/*.lean', 'MpVerif/Gen/C13Gen.lean'], expect_min=12)
     if not translator_ok:
         failing.append('translator gen_c13.py: ' + (out + err).strip()[-300:])
         proof_ok = False
